@@ -51,6 +51,19 @@ CHECKS = {
                      "replaying the dangerous interleaving against the real Consumer/Producer; C08_WithinCredit, C08_OnePerDelivery per frame, C08_Drain_Q / C08_Echo_Q / "
                      "C08_Wake at every quiescence point.",
                 note="trusted: the schedule-point facade (fe2o3-amqp/src/verif.rs, add-only, cfg-guarded); lock-step quiescence"),
+    "C09": dict(technique="TLC model check of link-credit arithmetic (Credit.tla); TLC-enumerated transfer / recv / dispose / set_credit / drain scripts (RecvGen.tla) against real client- and listener-attached receivers; traces validated by the TLA+ observer",
+                design="4/C09",
+                text="Conformance: depth-3 (thorough 4) scripts over a 10-event alphabet for Auto(1), Auto(2)+auto-accept with the sender's delivery-count next to 2^32, Manual and a "
+                     "listener-accepted link. Clauses: C09_FlowCount (reported delivery-count between deliveries handed over and deliveries arrived, from the sender's stated "
+                     "count), C09_FlowCredit (set_credit(n) is announced as n), C09_FlowCreditAuto, C09_Enforced (deliveries handed to the application never outnumber the largest "
+                     "limit announced), C09_Replenished_Q (Auto: with nothing held or queued the sender has credit left at every quiescence point).",
+                note="weaker readings chosen where the text is ambiguous (see DESIGN.md 7): arrivals are counted when the link endpoint takes them in; enforcement is by count"),
+    "C10": dict(technique="TLC model check of reassembly with omitted / repeated / contradictory continuation fields, aborts and a second interleaved link (Reasm.tla); TLC-generated fragmentations (RecvGen.tla, FragGen.tla: every 2-frame split offset, grid of 3-frame splits) replayed against the real receiver; traces validated by the TLA+ observer",
+                design="4/C10",
+                text="MC: a delivery is produced exactly when its last frame arrives and equals the concatenation; abort produces nothing; a contradiction puts the link in error. "
+                     "Conformance: C10_Exact (message identity, full byte equality of the re-encoded message, slices contiguous and complete), C10_NotBefore, C10_Abort, "
+                     "C10_Contradiction, C11_Routing on every recv result.",
+                note="trusted: message identification by message-id + full re-encoding comparison in the harness"),
     "C12": dict(technique="TLC model check of the 2.4.6 connection state machine (ConnLife.tla, safety + leads-to under fairness); TLC-enumerated event scripts (ConnGen.tla) executed lock-step against the real client and listener; recorded traces validated by the TLA+ observer (Endpoint.tla / EndpointTrace.tla)",
                 design="4/C12",
                 text="MC: header first, one open before anything else, at most one close, nothing after it, no action on frames outside OPENED, peer close ~> close "
